@@ -137,6 +137,33 @@ def run_config(ctx):
                         okw = False
                         whyw = "the `.wasm` fallback is not taken exactly when the `.wat` file does not exist"
         ctx.ob("R18.2", "wat-preferred", okw, "with text support `.wat` is tried first and `.wasm` only when it does not exist" if okw else whyw, site=f.span)
+    # the extension is appended exactly when the candidate is not a *directory* (a directory is a WIT package; anything else —
+    # including a stray extension-less file — is not the package, `<name>.wasm` is)
+    for a in appends:
+        guard = None
+        for b in f.blocks:
+            if b.term.k == "switch" and cfg.dominates(b.idx, a.bb):
+                sl = prov.slice(f, Operand(b.term.j["discr"]))
+                probes = sorted({(c.path or "").rsplit("::", 1)[-1] for _, c in sl.calls if "path::Path" in (c.path or "") and (c.path or "").rsplit("::", 1)[-1] in ("is_dir", "exists", "is_file", "try_exists", "metadata")})
+                if probes:
+                    guard = probes
+        ctx.ob("R18.2", "append-unless-directory", guard == ["is_dir"],
+               "the extension is appended unless the candidate path is a directory" if guard == ["is_dir"] else
+               "the extension is appended depending on %s instead of `is_dir`: an extension-less regular file at `<deps>/ns/name` shadows `name.wasm` (or makes a missing package look present)" % (guard or "no file-system test"),
+               site="%s in %s" % (a.span, f.id))
+    # text support: whether a file is parsed as WAT is decided from the final path's extension, wherever the path came from
+    # (deps directory or `--dep` override)
+    wp = [t for t in f.calls() if (t.path or "").startswith("wat::") and (t.path or "").rsplit("::", 1)[-1] in ("parse_bytes", "parse_file", "parse_str")]
+    for t in wp:
+        okx = False
+        for b in f.blocks:
+            if b.term.k == "switch" and cfg.dominates(b.idx, t.bb):
+                sl = prov.slice(f, Operand(b.term.j["discr"]))
+                if sl.has_call("Path::extension"):
+                    okx = True
+        ctx.ob("R18.2", "wat-by-extension", okx, "a file is parsed as text when its path ends in `.wat`" if okx else
+               "whether the file is parsed as WAT does not depend on the path's extension: a `.wat` file reached another way (an override) is returned as raw text bytes",
+               site="%s in %s" % (t.span, f.id))
     # per-key parser state: a WIT `Resolve` accumulates every package pushed into it, so it is created inside the per-key loop
     rn = [t for t in f.calls() if (t.path or "").endswith("wit_parser::resolve::Resolve::new") or (t.path or "").endswith("Resolve::new") and "wit_parser" in (t.path or "")]
     if rn:
